@@ -1,5 +1,7 @@
 import Pyxv.Proofs.C08
 import Pyxv.Model.Texts
+import Pyxv.Model.TextSpec
+import Pyxv.Proofs.ItextIds
 /-!
 # C08 — the text layer composed with the header layer
 
@@ -331,5 +333,510 @@ example : "fr".toList ∈ (run "default".toList formEx).langs := by
     simp [dictEntries, mEx, Kvs.items]
   rw [← hown] at hmem
   exact (languages_exact _ _ _).mpr ⟨_, (List.mem_filter.mp hmem).1, rfl⟩
+
+
+/-! ## phase 4: spec-level right-hand sides, choices, and `OwnEntries` from path distinctness -/
+
+/-! ### ending in the spec's own definitions -/
+
+/-- the spec's cells of one kind as (language suffix, text) column cells -/
+def toCol (cells : List TextSpec.Cell) (k : Str) : List ColCell :=
+  cells.filterMap fun c => if c.kind = k then some (c.lang, c.text) else none
+
+theorem findLang_toCol_some (cells : List TextSpec.Cell) (k l : Str) :
+    findLang (toCol cells k) (some l) = lookup l (TextSpec.suffixed cells k) := by
+  induction cells with
+  | nil => simp [toCol, findLang, TextSpec.suffixed, lookup]
+  | cons c cs ih =>
+    simp only [toCol, TextSpec.suffixed] at ih ⊢
+    rcases c with ⟨ck, cl, ct⟩
+    by_cases hk : ck = k
+    · cases cl with
+      | none => simpa [List.filterMap_cons, hk, findLang_cons] using ih
+      | some l' =>
+        by_cases hl : l' = l
+        · subst hl; simp [List.filterMap_cons, hk, findLang_cons, lookup]
+        · have hl' : ¬ l = l' := fun e => hl e.symm
+          simpa [List.filterMap_cons, hk, findLang_cons, lookup, hl, hl'] using ih
+    · cases cl <;> simpa [List.filterMap_cons, hk] using ih
+
+theorem findLang_toCol_none (cells : List TextSpec.Cell) (k : Str) :
+    findLang (toCol cells k) none = TextSpec.unsuffixed cells k := by
+  induction cells with
+  | nil => simp [toCol, findLang, TextSpec.unsuffixed]
+  | cons c cs ih =>
+    simp only [toCol, TextSpec.unsuffixed] at ih ⊢
+    rcases c with ⟨ck, cl, ct⟩
+    by_cases hk : ck = k
+    · cases cl with
+      | none => simp [List.filterMap_cons, hk, findLang_cons, List.find?]
+      | some l' => simpa [List.filterMap_cons, hk, findLang_cons, List.find?] using ih
+    · simpa [List.filterMap_cons, hk, List.find?] using ih
+
+theorem lookup_append {β} (k : Str) (a b : List (Str × β)) :
+    lookup k (a ++ b) = (lookup k a).orElse fun _ => lookup k b := by
+  induction a with
+  | nil => simp [lookup]
+  | cons x xs ih =>
+    rcases x with ⟨k', v⟩
+    by_cases h : k = k' <;> simp [lookup, h, ih]
+
+/-- **the spec's language map is the per-column reading**: `TextSpec.langMap` (suffixed cells, plus the unsuffixed one under
+the default language unless a cell is suffixed with it) looked up at a language = `specRead` of the column's cells -/
+theorem lookup_langMap (dl : Str) (cells : List TextSpec.Cell) (k l : Str) :
+    lookup l (TextSpec.langMap dl cells k) = specRead dl (toCol cells k) l := by
+  simp only [TextSpec.langMap, specRead, findLang_toCol_some, findLang_toCol_none]
+  cases hu : TextSpec.unsuffixed cells k with
+  | none => cases lookup l (TextSpec.suffixed cells k) <;> simp
+  | some u =>
+    by_cases hd : (lookup dl (TextSpec.suffixed cells k)).isSome = true
+    · simp only [hd, if_true]
+      by_cases hl : l = dl
+      · subst hl
+        cases h : lookup l (TextSpec.suffixed cells k) with
+        | none => rw [h] at hd; cases hd
+        | some x => simp
+      · cases lookup l (TextSpec.suffixed cells k) <;> simp [hl]
+    · simp only [hd, if_false, Bool.false_eq_true, lookup_append]
+      by_cases hl : l = dl
+      · subst hl; cases lookup l (TextSpec.suffixed cells k) <;> simp [lookup]
+      · cases lookup l (TextSpec.suffixed cells k) <;> simp [lookup, hl]
+
+/-- **effective_text for labels, ending in the spec's definitions**: for a survey element whose label slot is what
+`process_row` leaves for the row's label cells, with at least one suffixed label cell (the spec's itext-bearing condition),
+the `<label>` shows in every language exactly `TextSpec.demanded` of the plan `TextSpec.planElem` builds for it
+(`.itext (langMap …)`). -/
+theorem effective_text_label_spec (dl : Str) (T : List Entry) (padIds : List Str) (e : Elem) (cells : List TextSpec.Cell)
+    (m : Kvs) (lang : Str)
+    (hne : ∀ c ∈ toCol cells (s "label"), c.2 ≠ []) (hnd : ((toCol cells (s "label")).map (·.1)).Nodup)
+    (hsfx : TextSpec.suffixed cells (s "label") ≠ [])
+    (hslot : e.label = colVal dl .none (toCol cells (s "label"))) (hdict : colVal dl .none (toCol cells (s "label")) = .dict m)
+    (hown : OwnEntries T (e.path ++ s ":label") (s "long") m) (hlang : lang ≠ []) :
+    via T padIds (labelSrc e) (s "long") lang =
+      TextSpec.demanded (s "label") (.itext (TextSpec.langMap dl cells (s "label"))) lang := by
+  rw [effective_text_label dl T padIds e _ m lang hne hnd hslot hdict hown hlang]
+  have hm : (TextSpec.langMap dl cells (s "label")).isEmpty = false := by
+    unfold TextSpec.langMap
+    cases hs : TextSpec.suffixed cells (s "label") with
+    | nil => exact absurd hs hsfx
+    | cons x xs => cases TextSpec.unsuffixed cells (s "label") <;> simp <;> split <;> simp
+  have hl : lang.isEmpty = false := by cases lang <;> simp_all
+  have hk : TextSpec.mediaKinds.contains (s "label") = false := by decide
+  simp only [TextSpec.demanded, hl, Bool.false_eq_true, if_false, lookup_langMap, hk, hm, Bool.or_false]
+  cases specRead dl (toCol cells (s "label")) lang <;> simp [s, TextSpec.s]
+
+/-! ### choices -/
+
+/-- **what a select shows for a choice of an itext list** (`choiceTexts` wrapper): the label triples are exactly the
+`<text id="<list>-<idx>">` values, per language of the form -/
+theorem mem_choiceTexts_label (T : List Entry) (padIds view : List Str) (sr : Bool) (q : V) (c : Choice) (lang t : Str)
+    (hlang : lang ≠ []) :
+    (s "label", lang, t) ∈ choiceTexts T padIds view true sr q c ↔
+      lang ∈ view ∧ shown T padIds lang c.id (s "long") = some t := by
+  have hl : lang.isEmpty = false := by cases lang <;> simp_all
+  simp only [choiceTexts, if_true, List.flatMap_cons, List.mem_append, List.mem_filterMap, List.mem_flatMap, List.mem_map]
+  constructor
+  · rintro (⟨l, hlv, hopt⟩ | ⟨kf, ⟨mk, hmk, rfl⟩, l, _, hopt⟩)
+    · cases hle : l.isEmpty <;> simp [hle] at hopt
+      · obtain ⟨hs, rfl⟩ := hopt; exact ⟨hlv, hs⟩
+      · simp_all
+    · exfalso
+      have hnot : s "label" ∉ mediaKinds := by decide
+      cases hle : l.isEmpty <;> simp [hle] at hopt
+      · obtain ⟨_, _, h1, _⟩ := hopt
+        exact hnot (h1 ▸ hmk)
+      · exact hnot (hopt.1 ▸ hmk)
+  · rintro ⟨hv, hs⟩
+    left
+    exact ⟨lang, hv, by simp [hl, hs]⟩
+
+/-- **effective choice label** (itext list): every select using the list shows, for each language of the form, the text
+filed under that language for this choice, else `-` — the id `<list>-<idx>` counts positions in the full list, so it is
+this row's text (`OwnEntries`) -/
+theorem effective_choice_label_itext (dk : Str) (T : List Entry) (padIds view : List Str) (sr : Bool) (q : V) (c : Choice)
+    (m : Kvs) (lang : Str) (hown : OwnEntries T c.id (s "long") m) (hne : m ≠ .nil) (hfl : FlatD m)
+    (hnd : m.keys.Nodup) (hlang : lang ≠ []) (hv : lang ∈ view) :
+    (s "label", lang, (readLang dk (.dict m) lang).getD (s "-")) ∈ choiceTexts T padIds view true sr q c :=
+  (mem_choiceTexts_label T padIds view sr q c lang _ hlang).mpr
+    ⟨hv, shown_own dk T padIds lang c.id _ m (Or.inl rfl) hown hne hfl hnd⟩
+
+
+theorem dictEntries_id_form {id form : Str} {v : V} {x : Entry} (h : x ∈ dictEntries id form v) :
+    x.id = id ∧ x.form = form := by
+  cases v with
+  | none => simp [dictEntries] at h
+  | str t => simp [dictEntries] at h
+  | dict m =>
+    simp only [dictEntries, List.mem_map] at h
+    obtain ⟨_, _, rfl⟩ := h
+    exact ⟨rfl, rfl⟩
+
+theorem msgEntries_id_form {dl id k : Str} {v : V} {x : Entry} (h : x ∈ msgEntries dl id k v) :
+    x.id = id ∧ x.form = s "long" := by
+  cases v with
+  | none => simp [msgEntries] at h
+  | str t =>
+    simp only [msgEntries] at h
+    split at h
+    · simp at h; subst h; exact ⟨rfl, rfl⟩
+    · simp at h
+  | dict m => exact dictEntries_id_form (by simpa [msgEntries] using h)
+
+theorem choiceId_eq (c : Choice) : c.id = Itext.choiceId c.list c.idx := by
+  simp [Choice.id, Itext.choiceId, natStr, s, List.append_assoc]
+
+theorem elemId_eq (p : Str) (d : String) : p ++ s ":" ++ d.toList = Itext.path p d := by
+  simp [Itext.path, s, List.append_assoc]
+
+/-- every entry an element files carries one of its own ids `<xpath>:<display>` -/
+theorem getTranslations_ids (dl : Str) (e : Elem) {x : Entry} (h : x ∈ getTranslations dl e) :
+    ∃ d ∈ Itext.displays, x.id = Itext.path e.path d := by
+  simp only [getTranslations, List.mem_append] at h
+  rcases h with ((h | h) | h) | h
+  · -- bind messages
+    unfold msgsOf at h
+    cases hb : e.bind with
+    | none => simp [hb] at h
+    | str t => simp [hb] at h
+    | dict b =>
+      simp only [hb] at h
+      split at h
+      · simp at h
+      · simp only [List.mem_flatMap] at h
+        obtain ⟨k, hk, hx⟩ := h
+        have hid := (msgEntries_id_form hx).1
+        simp only [msgKeys, List.mem_cons, List.mem_nil_iff, or_false] at hk
+        rcases hk with rfl | rfl | rfl
+        · exact ⟨"jr:constraintMsg", by decide, by rw [hid]; exact elemId_eq e.path "jr:constraintMsg"⟩
+        · exact ⟨"jr:requiredMsg", by decide, by rw [hid]; exact elemId_eq e.path "jr:requiredMsg"⟩
+        · exact ⟨"jr:noAppErrorString", by decide, by rw [hid]; exact elemId_eq e.path "jr:noAppErrorString"⟩
+  · exact ⟨"label", by decide, by rw [(dictEntries_id_form h).1]; simp [Itext.path, s]⟩
+  · exact ⟨"hint", by decide, by rw [(dictEntries_id_form h).1]; simp [Itext.path, s]⟩
+  · exact ⟨"hint", by decide, by rw [(dictEntries_id_form h).1]; simp [Itext.path, s]⟩
+
+def isLabelLong (id : Str) (x : Entry) : Bool := decide (x.id = id ∧ x.form = s "long")
+
+/-- another element (different xpath) files nothing under this element's label id -/
+theorem filter_other_elem (dl : Str) (e y : Elem) (hp : y.path ≠ e.path) :
+    (getTranslations dl y).filter (isLabelLong (e.path ++ s ":label")) = [] := by
+  rw [List.filter_eq_nil_iff]
+  intro x hx hP
+  obtain ⟨d, hd, hid⟩ := getTranslations_ids dl y hx
+  simp only [isLabelLong, decide_eq_true_eq] at hP
+  have h2 : Itext.path y.path d = Itext.path e.path "label" := by
+    rw [← hid, hP.1]; simp [Itext.path, s]
+  exact hp (Itext.path_inj hd (by decide) h2).1
+
+/-- the element's own entries under its label id with form `long` are exactly its label dict -/
+theorem filter_own_elem (dl : Str) (e : Elem) (m : Kvs) (hlab : e.label = .dict m) :
+    (getTranslations dl e).filter (isLabelLong (e.path ++ s ":label")) =
+      dictEntries (e.path ++ s ":label") (s "long") (.dict m) := by
+  have hne : ∀ (d : String), d ∈ Itext.displays → d ≠ "label" → ∀ x : Entry, x.id = Itext.path e.path d →
+      isLabelLong (e.path ++ s ":label") x = false := by
+    intro d hd hdl x hx
+    simp only [isLabelLong, decide_eq_false_iff_not, not_and]
+    intro h _
+    have h2 : Itext.path e.path d = Itext.path e.path "label" := by rw [← hx, h]; simp [Itext.path, s]
+    exact hdl (Itext.path_inj hd (by decide) h2).2
+  have hnil : ∀ (l : List Entry) (d : String), d ∈ Itext.displays → d ≠ "label" →
+      (∀ x ∈ l, x.id = Itext.path e.path d) → l.filter (isLabelLong (e.path ++ s ":label")) = [] := by
+    intro l d hd hdl hl
+    rw [List.filter_eq_nil_iff]
+    intro x hx hP
+    rw [hne d hd hdl x (hl x hx)] at hP; cases hP
+  have hwrap : labelV dl e = .dict m := by simp [labelV, hlab, isDict]
+  unfold getTranslations
+  simp only [hwrap, List.filter_append]
+  have h1 : (msgsOf dl e).filter (isLabelLong (e.path ++ s ":label")) = [] := by
+    rw [List.filter_eq_nil_iff]
+    intro x hx hP
+    unfold msgsOf at hx
+    cases hb : e.bind with
+    | none => simp [hb] at hx
+    | str t => simp [hb] at hx
+    | dict b =>
+      simp only [hb] at hx
+      split at hx
+      · simp at hx
+      · simp only [List.mem_flatMap] at hx
+        obtain ⟨k, hk, hxk⟩ := hx
+        have hid := (msgEntries_id_form hxk).1
+        simp only [msgKeys, List.mem_cons, List.mem_nil_iff, or_false] at hk
+        rcases hk with rfl | rfl | rfl
+        · rw [hne "jr:constraintMsg" (by decide) (by decide) x (by rw [hid]; exact elemId_eq _ _)] at hP; cases hP
+        · rw [hne "jr:requiredMsg" (by decide) (by decide) x (by rw [hid]; exact elemId_eq _ _)] at hP; cases hP
+        · rw [hne "jr:noAppErrorString" (by decide) (by decide) x (by rw [hid]; exact elemId_eq _ _)] at hP; cases hP
+  have h3 : ∀ v form, (dictEntries (e.path ++ s ":hint") form v).filter (isLabelLong (e.path ++ s ":label")) = [] := by
+    intro v form
+    exact hnil _ "hint" (by decide) (by decide) fun x hx => by rw [(dictEntries_id_form hx).1]; simp [Itext.path, s]
+  have h2 : (dictEntries (e.path ++ s ":label") (s "long") (.dict m)).filter (isLabelLong (e.path ++ s ":label")) =
+      dictEntries (e.path ++ s ":label") (s "long") (.dict m) := by
+    rw [List.filter_eq_self]
+    intro x hx
+    have := dictEntries_id_form hx
+    simp [isLabelLong, this.1, this.2]
+  rw [h1, h2, h3, h3]
+  simp
+
+theorem choiceEntries_id {dl : Str} {c : Choice} {x : Entry} (h : x ∈ choiceEntries dl c) : x.id = c.id := by
+  unfold choiceEntries at h
+  simp only [List.mem_append] at h
+  rcases h with h | h
+  · split at h
+    · simp at h
+    · split at h
+      · simp only [List.mem_flatMap] at h
+        obtain ⟨⟨lang, value⟩, _, hx⟩ := h
+        simp only at hx
+        split at hx
+        · simp only [List.mem_map] at hx; obtain ⟨_, _, rfl⟩ := hx; rfl
+        · simp at hx; subst hx; rfl
+      · simp at h; subst h; rfl
+  · split at h
+    · simp at h
+    · split at h
+      · simp only [List.mem_flatMap] at h
+        obtain ⟨⟨mt, value⟩, _, hx⟩ := h
+        simp only at hx
+        split at hx
+        · simp only [List.mem_map] at hx; obtain ⟨_, _, rfl⟩ := hx; rfl
+        · simp at hx; subst hx; rfl
+      · simp at h
+
+theorem filter_flatMap_nil {α} (p : Entry → Bool) (g : α → List Entry) : ∀ (l : List α),
+    (∀ a ∈ l, (g a).filter p = []) → (l.flatMap g).filter p = []
+  | [], _ => by simp
+  | a :: l, h => by
+    simp only [List.flatMap_cons, List.filter_append, h a (by simp), List.nil_append]
+    exact filter_flatMap_nil p g l fun b hb => h b (by simp [hb])
+
+theorem flatMap_filter_own (dl : Str) (e : Elem) (m : Kvs) (hlab : e.label = .dict m) : ∀ (es : List Elem),
+    e ∈ es → (es.map (·.path)).Nodup →
+    (es.flatMap (getTranslations dl)).filter (isLabelLong (e.path ++ s ":label")) =
+      dictEntries (e.path ++ s ":label") (s "long") (.dict m)
+  | [], h, _ => by simp at h
+  | x :: xs, hmem, hnd => by
+    simp only [List.map_cons, List.nodup_cons] at hnd
+    simp only [List.flatMap_cons, List.filter_append]
+    by_cases hp : x.path = e.path
+    · have hnotin : e ∉ xs := fun h => hnd.1 (hp ▸ List.mem_map.mpr ⟨e, h, rfl⟩)
+      have hxe : e = x := by
+        rcases List.mem_cons.mp hmem with h | h
+        · exact h
+        · exact absurd h hnotin
+      subst hxe
+      rw [filter_own_elem dl e m hlab,
+        filter_flatMap_nil _ _ xs fun y hy => filter_other_elem dl e y fun h => hnd.1 (h ▸ List.mem_map.mpr ⟨y, hy, rfl⟩)]
+      simp
+    · have hexs : e ∈ xs := by
+        rcases List.mem_cons.mp hmem with h | h
+        · exact absurd (h ▸ rfl) hp
+        · exact h
+      rw [filter_other_elem dl e x hp, flatMap_filter_own dl e m hlab xs hexs hnd.2]
+      simp
+
+/-- **`OwnEntries` from path distinctness** (with C07's `rendered_ids_injective` facts `path_inj`, `choiceId_ne_path`):
+in a form whose elements have pairwise distinct xpaths and no media type called `long`, the table's writes to
+`[<xpath>:label][long]` are exactly the label dict of the element with that xpath — for any names (a question may be
+called `q:hint`, a list `/data/q:label`). -/
+theorem ownEntries_label (dl : Str) (f : Form) (e : Elem) (m : Kvs) (he : e ∈ f.elems) (hlab : e.label = .dict m)
+    (hpaths : (f.elems.map (·.path)).Nodup)
+    (hmedia : ∀ x ∈ f.elems.flatMap (mediaEntries dl), x.form ≠ s "long") :
+    OwnEntries (table dl f) (e.path ++ s ":label") (s "long") m := by
+  unfold OwnEntries table
+  have hP : (fun x : Entry => decide (x.id = e.path ++ s ":label" ∧ x.form = s "long")) = isLabelLong (e.path ++ s ":label") := rfl
+  rw [hP, List.filter_append, List.filter_append, flatMap_filter_own dl e m hlab f.elems he hpaths]
+  have hch : ((f.choices.filter fun c => (itextLists f).contains c.list).flatMap (choiceEntries dl)).filter
+      (isLabelLong (e.path ++ s ":label")) = [] := by
+    apply filter_flatMap_nil
+    intro c _
+    rw [List.filter_eq_nil_iff]
+    intro x hx hP
+    simp only [isLabelLong, decide_eq_true_eq] at hP
+    have h1 : Itext.choiceId c.list c.idx = Itext.path e.path "label" := by
+      rw [← choiceId_eq, ← choiceEntries_id hx, hP.1]; simp [Itext.path, s]
+    exact Itext.choiceId_ne_path _ _ _ (by decide) h1
+  have hmd : (f.elems.flatMap (mediaEntries dl)).filter (isLabelLong (e.path ++ s ":label")) = [] := by
+    rw [List.filter_eq_nil_iff]
+    intro x hx hP
+    simp only [isLabelLong, decide_eq_true_eq] at hP
+    exact hmedia x hx hP.2
+  rw [hch, hmd]
+  simp
+
+
+/-- **effective_text for labels on whole forms** (no `OwnEntries` hypothesis): in a form whose elements have pairwise
+distinct xpaths and no media type called `long`, an element whose label slot is what `process_row` leaves for its row's
+label cells (one of them suffixed) shows in every language exactly what the spec demands for those cells. -/
+theorem effective_text_label_form (dl : Str) (f : Form) (padIds : List Str) (e : Elem) (cells : List TextSpec.Cell)
+    (m : Kvs) (lang : Str) (he : e ∈ f.elems) (hpaths : (f.elems.map (·.path)).Nodup)
+    (hmedia : ∀ x ∈ f.elems.flatMap (mediaEntries dl), x.form ≠ s "long")
+    (hne : ∀ c ∈ toCol cells (s "label"), c.2 ≠ []) (hnd : ((toCol cells (s "label")).map (·.1)).Nodup)
+    (hsfx : TextSpec.suffixed cells (s "label") ≠ [])
+    (hslot : e.label = colVal dl .none (toCol cells (s "label"))) (hdict : colVal dl .none (toCol cells (s "label")) = .dict m)
+    (hlang : lang ≠ []) :
+    via (table dl f) padIds (labelSrc e) (s "long") lang =
+      TextSpec.demanded (s "label") (.itext (TextSpec.langMap dl cells (s "label"))) lang :=
+  effective_text_label_spec dl _ padIds e cells m lang hne hnd hsfx hslot hdict
+    (ownEntries_label dl f e m he (hslot.trans hdict) hpaths hmedia) hlang
+
+def specCellsEx : List TextSpec.Cell := [⟨"label".toList, some "fr".toList, "Qfr".toList⟩, ⟨"label".toList, none, "Q".toList⟩]
+
+/-- non-vacuity: the one-question form `label::fr`, `label`; French reads `Qfr`, German the placeholder -/
+example : via (table "default".toList formEx) [] (labelSrc elemEx) (s "long") "fr".toList = some "Qfr".toList ∧
+    via (table "default".toList formEx) [] (labelSrc elemEx) (s "long") "de".toList = some (s "-") := by
+  have hmedia : ∀ x ∈ formEx.elems.flatMap (mediaEntries "default".toList), x.form ≠ s "long" := by
+    intro x hx; simp [formEx, elemEx, mediaEntries] at hx
+  have hd : colVal "default".toList .none (toCol specCellsEx (s "label")) = .dict mEx := by rfl
+  have key := fun lang hl => effective_text_label_form "default".toList formEx [] elemEx specCellsEx mEx lang
+    (by simp [formEx]) (by decide) hmedia (by decide) (by decide) (by decide) rfl hd hl
+  constructor
+  · rw [key "fr".toList (by decide)]; decide
+  · rw [key "de".toList (by decide)]; decide
+
+/-! ### the same derivation for hints (generic in the display element) -/
+
+def isAt (id form : Str) (x : Entry) : Bool := decide (x.id = id ∧ x.form = form)
+
+theorem filter_other_elem_at (dl : Str) (e y : Elem) (d : String) (form : Str) (hd : d ∈ Itext.displays)
+    (hp : y.path ≠ e.path) :
+    (getTranslations dl y).filter (isAt (Itext.path e.path d) form) = [] := by
+  rw [List.filter_eq_nil_iff]
+  intro x hx hP
+  obtain ⟨d', hd', hid⟩ := getTranslations_ids dl y hx
+  simp only [isAt, decide_eq_true_eq] at hP
+  exact hp (Itext.path_inj hd' hd (hid ▸ hP.1)).1
+
+theorem filter_nil_of_display (e : Elem) (d d' : String) (form : Str) (hd : d ∈ Itext.displays) (hd' : d' ∈ Itext.displays)
+    (hne : d' ≠ d) (l : List Entry) (hl : ∀ x ∈ l, x.id = Itext.path e.path d') :
+    l.filter (isAt (Itext.path e.path d) form) = [] := by
+  rw [List.filter_eq_nil_iff]
+  intro x hx hP
+  simp only [isAt, decide_eq_true_eq] at hP
+  exact hne (Itext.path_inj hd' hd ((hl x hx) ▸ hP.1)).2
+
+theorem msgsOf_ids (dl : Str) (e : Elem) {x : Entry} (hx : x ∈ msgsOf dl e) :
+    ∃ d ∈ ["jr:constraintMsg", "jr:requiredMsg", "jr:noAppErrorString"], x.id = Itext.path e.path d := by
+  unfold msgsOf at hx
+  cases hb : e.bind with
+  | none => simp [hb] at hx
+  | str t => simp [hb] at hx
+  | dict b =>
+    simp only [hb] at hx
+    split at hx
+    · simp at hx
+    · simp only [List.mem_flatMap] at hx
+      obtain ⟨k, hk, hxk⟩ := hx
+      have hid := (msgEntries_id_form hxk).1
+      simp only [msgKeys, List.mem_cons, List.mem_nil_iff, or_false] at hk
+      rcases hk with rfl | rfl | rfl
+      · exact ⟨"jr:constraintMsg", by simp, by rw [hid]; exact elemId_eq _ _⟩
+      · exact ⟨"jr:requiredMsg", by simp, by rw [hid]; exact elemId_eq _ _⟩
+      · exact ⟨"jr:noAppErrorString", by simp, by rw [hid]; exact elemId_eq _ _⟩
+
+theorem filter_msgs_nil (dl : Str) (e : Elem) (d : String) (form : Str) (hd : d ∈ Itext.displays)
+    (hnm : d = "label" ∨ d = "hint") :
+    (msgsOf dl e).filter (isAt (Itext.path e.path d) form) = [] := by
+  rw [List.filter_eq_nil_iff]
+  intro x hx hP
+  obtain ⟨d', hd', hid⟩ := msgsOf_ids dl e hx
+  simp only [isAt, decide_eq_true_eq] at hP
+  have hd'' : d' ∈ Itext.displays := by
+    simp only [List.mem_cons, List.mem_nil_iff, or_false] at hd'
+    rcases hd' with rfl | rfl | rfl <;> decide
+  have := (Itext.path_inj hd'' hd (hid ▸ hP.1)).2
+  simp only [List.mem_cons, List.mem_nil_iff, or_false] at hd'
+  rcases hnm with rfl | rfl <;> rcases hd' with rfl | rfl | rfl <;> exact absurd this (by decide)
+
+/-- the element's own entries under its hint id: the plain values are the hint dict, the guidance values the guidance dict -/
+theorem filter_own_hint (dl : Str) (e : Elem) (m : Kvs) (hh : hintV dl e = .dict m) :
+    (getTranslations dl e).filter (isAt (Itext.path e.path "hint") (s "long")) =
+      dictEntries (e.path ++ s ":hint") (s "long") (.dict m) := by
+  have hidl : e.path ++ s ":label" = Itext.path e.path "label" := by simp [Itext.path, s]
+  have hidh : e.path ++ s ":hint" = Itext.path e.path "hint" := by simp [Itext.path, s]
+  unfold getTranslations
+  simp only [hh, List.filter_append]
+  rw [filter_msgs_nil dl e "hint" _ (by decide) (Or.inr rfl),
+    filter_nil_of_display e "hint" "label" _ (by decide) (by decide) (by decide) _
+      (fun x hx => by rw [(dictEntries_id_form hx).1, hidl])]
+  have h2 : (dictEntries (e.path ++ s ":hint") (s "long") (.dict m)).filter (isAt (Itext.path e.path "hint") (s "long")) =
+      dictEntries (e.path ++ s ":hint") (s "long") (.dict m) := by
+    rw [List.filter_eq_self]
+    intro x hx
+    have := dictEntries_id_form hx
+    simp [isAt, this.1, this.2, hidh]
+  have h3 : (dictEntries (e.path ++ s ":hint") (s "guidance") (guidanceV dl e)).filter
+      (isAt (Itext.path e.path "hint") (s "long")) = [] := by
+    rw [List.filter_eq_nil_iff]
+    intro x hx hP
+    simp only [isAt, decide_eq_true_eq] at hP
+    have := (dictEntries_id_form hx).2
+    rw [this] at hP
+    exact absurd hP.2 (by decide)
+  rw [h2, h3]; simp
+
+theorem flatMap_filter_own_at (dl : Str) (e : Elem) (d : String) (form : Str) (R : List Entry) (hd : d ∈ Itext.displays)
+    (hown : (getTranslations dl e).filter (isAt (Itext.path e.path d) form) = R) : ∀ (es : List Elem),
+    e ∈ es → (es.map (·.path)).Nodup →
+    (es.flatMap (getTranslations dl)).filter (isAt (Itext.path e.path d) form) = R
+  | [], h, _ => by simp at h
+  | x :: xs, hmem, hnd => by
+    simp only [List.map_cons, List.nodup_cons] at hnd
+    simp only [List.flatMap_cons, List.filter_append]
+    by_cases hp : x.path = e.path
+    · have hnotin : e ∉ xs := fun h => hnd.1 (hp ▸ List.mem_map.mpr ⟨e, h, rfl⟩)
+      have hxe : e = x := by
+        rcases List.mem_cons.mp hmem with h | h
+        · exact h
+        · exact absurd h hnotin
+      subst hxe
+      rw [hown, filter_flatMap_nil _ _ xs fun y hy =>
+        filter_other_elem_at dl e y d form hd fun h => hnd.1 (h ▸ List.mem_map.mpr ⟨y, hy, rfl⟩)]
+      simp
+    · have hexs : e ∈ xs := by
+        rcases List.mem_cons.mp hmem with h | h
+        · exact absurd (h ▸ rfl) hp
+        · exact h
+      rw [filter_other_elem_at dl e x d form hd hp, flatMap_filter_own_at dl e d form R hd hown xs hexs hnd.2]
+      simp
+
+/-- **`OwnEntries` for a translated hint, from path distinctness** -/
+theorem ownEntries_hint (dl : Str) (f : Form) (e : Elem) (m : Kvs) (he : e ∈ f.elems) (hh : hintV dl e = .dict m)
+    (hpaths : (f.elems.map (·.path)).Nodup)
+    (hmedia : ∀ x ∈ f.elems.flatMap (mediaEntries dl), x.form ≠ s "long") :
+    OwnEntries (table dl f) (e.path ++ s ":hint") (s "long") m := by
+  have hidh : e.path ++ s ":hint" = Itext.path e.path "hint" := by simp [Itext.path, s]
+  unfold OwnEntries table
+  have hP : (fun x : Entry => decide (x.id = e.path ++ s ":hint" ∧ x.form = s "long")) =
+      isAt (Itext.path e.path "hint") (s "long") := by rw [← hidh]; rfl
+  rw [hP, List.filter_append, List.filter_append,
+    flatMap_filter_own_at dl e "hint" _ _ (by decide) (filter_own_hint dl e m hh) f.elems he hpaths]
+  have hch : ((f.choices.filter fun c => (itextLists f).contains c.list).flatMap (choiceEntries dl)).filter
+      (isAt (Itext.path e.path "hint") (s "long")) = [] := by
+    apply filter_flatMap_nil
+    intro c _
+    rw [List.filter_eq_nil_iff]
+    intro x hx hP
+    simp only [isAt, decide_eq_true_eq] at hP
+    have h1 : Itext.choiceId c.list c.idx = Itext.path e.path "hint" := by
+      rw [← choiceId_eq, ← choiceEntries_id hx, hP.1]
+    exact Itext.choiceId_ne_path _ _ _ (by decide) h1
+  have hmd : (f.elems.flatMap (mediaEntries dl)).filter (isAt (Itext.path e.path "hint") (s "long")) = [] := by
+    rw [List.filter_eq_nil_iff]
+    intro x hx hP
+    simp only [isAt, decide_eq_true_eq] at hP
+    exact hmedia x hx hP.2
+  rw [hch, hmd]
+  simp
+
+/-- **effective hint on whole forms**: a translated hint shows per language the text filed under it, else `-`, in any form
+with pairwise distinct xpaths -/
+theorem effective_hint_form (dl : Str) (f : Form) (padIds : List Str) (e : Elem) (m : Kvs) (lang : Str)
+    (he : e ∈ f.elems) (hh : e.hint = .dict m) (hpaths : (f.elems.map (·.path)).Nodup)
+    (hmedia : ∀ x ∈ f.elems.flatMap (mediaEntries dl), x.form ≠ s "long")
+    (hne : m ≠ .nil) (hfl : FlatD m) (hnd : m.keys.Nodup) (hlang : lang ≠ []) :
+    via (table dl f) padIds (hintSrc e) (s "long") lang = some ((readLang dl e.hint lang).getD (s "-")) :=
+  effective_hint_itext dl _ padIds e lang m hh
+    (ownEntries_hint dl f e m he (by simp [hintV, hh]) hpaths hmedia) hne hfl hnd hlang
 
 end Pyxv.C08
